@@ -224,24 +224,24 @@ CHECKS["C19"] = dict(
 ADD = {
     "C01": "Every source is additionally evaluated in one call together with a stretched companion body of its class, in both orders (judged where the source alone is right).",
     "C12": "Additional variants: the triangle-soup constructor in a unit whose numbers are round in no decade, and poses reached through move + rotate about an anchor next to the object (all lengths carry the unit). Mesh variants: local coordinates all negative (position compensating); the body evaluated in one call behind a half-size companion of equal face count; interior ray points.",
-    "C13": "Observers exactly on the extension of the lateral cylinder surface in one 14-row call; N-gon -> Circle also at micrometre radius. Menu entries for a mesh repaired by reorient_faces() after a first evaluation and for micrometre / millimetre bodies with non-round coordinates through every converter. 19^3 lattice of simple rational fractions inside a cube / box: mesh (faces, convex hull) against Cuboid, B and J.",
+    "C13": "Observers exactly on the extension of the lateral cylinder surface in one 14-row call; N-gon -> Circle also at micrometre radius. Menu entries for a mesh repaired by reorient_faces() after a first evaluation and for micrometre / millimetre bodies with non-round coordinates through every converter. 19^3 lattice of simple rational fractions inside a cube / box: mesh (faces, convex hull) against Cuboid, B and J. Sector decompositions against the cylinder at observers 1e-15..1e-11 rad next to every cut plane, off the body.",
     "C02": "The on-surface rows are evaluated again without the ordinary rows and singly (every row takes a special-case branch); Tetrahedron in both chiralities. Attribute forms include later in-place mutation of the caller's array; bodies are also evaluated in batches of 2-3 (same / other local mesh, hollow ring, tetrahedron; list and Collection) with observers inside exactly one body. A CustomSource whose field function is a complete user-written magnet model (B, H, J, M) through 8 interfaces and 3 poses. Augmented assignment and edit-then-assign forms of both attributes; batches evaluated with in_out='inside' / 'outside' (sources that take the argument follow it at every observer, the others are unaffected, in any order); a body 1e-4 the size of its neighbours in the call.",
     "C03": "Also left-handed and 0.3-deg tilted sensors. Sensor observers (static, +a/-a wobble, rotating, micro-tilt paths; off-origin pixels) are moved through the API by the same words as the source: every reading must stay unchanged.",
     "C04": "Sensor kinds include tilts of 0.3 deg and micro-radian sweeps; sensors given as a nested Collection tree; a field call on the still static sensor before its path is built (nothing may be cached across the later moves). Path-length combinations include sensor paths strictly between 1 and the longest path of the call and sensors of unequal path lengths.",
-    "C05": "sumup with five pixel aggregations equals the sum of the per-source output; observers at the singular point of one source must give the same non-finite entries through sumup, Sensor sumup and Collection; cancelling / axis-aligned excitation vectors in the linearity menu; a partial segment next to a hollow ring among the leaves. The leaf cycle contains two CustomSources with different field functions and two TriangularMeshes sharing the identical local mesh (different polarizations) that contain the observer. Excitation routes: every history of constructor form, 1-2 setter / copy(...) overrides of polarization or magnetization (current, moment), with or without a field call between the steps, alone or as a collection child, must give the field and attributes of a body constructed with the final excitation. The sensor-output plot of show(..., sumup=True) must draw getB(objects, sensor, sumup=True).",
-    "C06": "Compute - edit - compute histories (9 edits, singly and in ordered pairs) of every source kind against twins that were edited without ever being evaluated. The source alphabet also holds a body with the identical local mesh as another one (other polarization), a full hollow ring next to a partial segment, and two Cylinders. Polyline-only lists up to length 4 over four vertex sets (two of equal vertex count and different currents).",
-    "C07": "Core functions are compared with the object interface on ALL observer cells of C01 (both sides of every formula switch); sensors given as nested Collection trees; a mesh repaired by reorient_faces() after a first evaluation through every interface. Functional-interface batches mix partial and full-ring segments and ragged meshes (equal face counts of different geometry next to another count) with observers inside exactly one body; every core function is called twice with the same argument objects. Every core call is repeated with Fortran-ordered, strided, transposed-view, read-only and single-row inputs: inputs unchanged, results equal. Whole-number parameters of the functional interface as int64 arrays and Python int lists (scales 1, 1e3, 4e9) against the same numbers as floats.",
+    "C05": "sumup with five pixel aggregations equals the sum of the per-source output; observers at the singular point of one source must give the same non-finite entries through sumup, Sensor sumup and Collection; cancelling / axis-aligned excitation vectors in the linearity menu; a partial segment next to a hollow ring among the leaves. The leaf cycle contains two CustomSources with different field functions and two TriangularMeshes sharing the identical local mesh (different polarizations) that contain the observer. Excitation routes: every history of constructor form, 1-2 setter / copy(...) overrides of polarization or magnetization (current, moment), with or without a field call between the steps, alone or as a collection child, must give the field and attributes of a body constructed with the final excitation. The sensor-output plot of show(..., sumup=True) must draw getB(objects, sensor, sumup=True). The summed sensor plot also for a sub-collection shown without its parent.",
+    "C06": "Compute - edit - compute histories (9 edits, singly and in ordered pairs) of every source kind against twins that were edited without ever being evaluated. The source alphabet also holds a body with the identical local mesh as another one (other polarization), a full hollow ring next to a partial segment, and two Cylinders. Polyline-only lists up to length 4 over four vertex sets (two of equal vertex count and different currents). Large calls: 3-4 sources of one class with 260-350 k observers and 2-3 meshes of equal face count with 30-45 k observers (beyond 1e6 rows / 2^19 row-face pairs).",
+    "C07": "Core functions are compared with the object interface on ALL observer cells of C01 (both sides of every formula switch); sensors given as nested Collection trees; a mesh repaired by reorient_faces() after a first evaluation through every interface. Functional-interface batches mix partial and full-ring segments and ragged meshes (equal face counts of different geometry next to another count) with observers inside exactly one body; every core function is called twice with the same argument objects. Every core call is repeated with Fortran-ordered, strided, transposed-view, read-only and single-row inputs: inputs unchanged, results equal. Whole-number parameters of the functional interface as int64 arrays and Python int lists (scales 1, 1e3, 4e9) against the same numbers as floats. Left-handed tetrahedra in the functional interface.",
     "C08": "Fault menu includes a field_func raising KeyboardInterrupt; sensors with one bare pixel; Collection entry point with nested collections. After each call a differential futures probe applies a fixed short history of in-place operations to the involved objects and to freshly built twins (hidden changes: read-only / shared / aliased buffers); single-row observers; exported core functions must leave their input arrays unchanged. Lazy-style cases: all objects carry labels given at construction (caller dictionary or keyword) and their style is never looked at before the calls; compared through the effective style, the labels must show in the dataframe and survive. A mesh with all checks skipped (status attributes are part of the snapshot); the warnings of the repeated call must equal those of the first. Core functions in five memory layouts. 400 generic orientations: an object whose path was padded for the call keeps the bits of its stored quaternions.",
     "C09": "Value regimes: rotations about anchors at levers 1..1e-8 object sizes with all numbers in nano / micro / kilo units or 2000 / 1e6 from the origin. rotation=None (unit rotation) is part of the alphabet; all 42 Euler sequences x deg/rad x scalar / length-1 / length-2 angle input are compared with a composition of elementary matrices; live-array aliasing ops (the object's own position / orientation getter output passed back in). Anchors given as ndarrays (also all-zero ones); translations, shifted assignments, += and 20-step scans at levers 1..1e-8 in every value regime; numpy integers of every width as start on paths of length 1, 3 and 200.",
     "C10": "In-place arithmetic through the getter (coll.position += d), live views inside lists, a member's orientation object as rotation input, micro-radian sweeps, translation-only trees with orientation re-assignment. Aliasing ops pass the live position array of the operated collection, its first or its last descendant as displacement, anchor or setter value. All rotation input forms (rotvec, euler, matrix, quaternion, mrp). Shared-input histories (one array / Rotation assigned to two members, then one operation, against a twin tree with separate copies); trees whose children sit 1e-3..1e-9 from the collection position, at three centres.",
     "C11": "copy(**kw) transitions: rejected keywords (the original must stay attached) and copy(parent=C). One source of the universe is a CustomSource without field function. Live getter lists handed to add() / Collection() (also of the target itself).",
     "C14": "A loop tilting along its path (linking changes per step), a body turning along its path (one integral per step) and a mesh repaired after first use. Sources include meshes with three different, permuted extents, one mesh of two differently oriented disconnected parts and a CylinderSegment given beyond 360 deg; loops are split exactly where they cross a body surface.",
     "C15": "Flat / elongated and axis-polarized Cuboids and Cylinders. Dipole observers at distances 1e-20..1e-98 where the field is large but representable must give finite values. Rim lattice for a 7 x 6 grid of Cylinder diameter : height ratios. 80 zero-volume tetrahedra in generic position; observers 1e-15..1e-6 rad next to the planes of the flat side faces of CylinderSegment.",
-    "C16": "Tiny / thin seed faces (chamfered cube, oblique rod, cyclic index orders); triangle soups with +0.0 / -0.0 on the mirror plane; read / repair histories on meshes built without reorientation. Variants include vertices that no face refers to at any index and from_ConvexHull with interior points. ALL placements of the used vertices among N slots of the vertex array (tetrahedron in 12, octahedron in 11 slots; thorough 16 / 14 / prism 12); a genus-1 frame mesh and disjoint pairs of a frame with a simple body (Euler characteristics 0 + 2). Interpenetrating parts of 0.1..0.001 of the mesh size next to a full-size part; a coarse body pierced by a finely meshed one.",
+    "C16": "Tiny / thin seed faces (chamfered cube, oblique rod, cyclic index orders); triangle soups with +0.0 / -0.0 on the mirror plane; read / repair histories on meshes built without reorientation. Variants include vertices that no face refers to at any index and from_ConvexHull with interior points. ALL placements of the used vertices among N slots of the vertex array (tetrahedron in 12, octahedron in 11 slots; thorough 16 / 14 / prism 12); a genus-1 frame mesh and disjoint pairs of a frame with a simple body (Euler characteristics 0 + 2). Interpenetrating parts of 0.1..0.001 of the mesh size next to a full-size part; a coarse body pierced by a finely meshed one. Index tables in every integer width and as floats (24 / 300 vertices); interpenetrating meshes at scales 6e9..2e-12.",
     "C17": "position / orientation of every class incl. Collection (children must stay put on a rejected assignment); rank-0 ndarrays. TriangularMesh vertices / faces (constructor only); 49 generated field functions (7 behaviours for B x 7 for H); every mandatory input unset (omitted / None / set to None) in 8 batch positions must raise MagpylibMissingInput; accepted objects are evaluated with getB and getH. Face tables with one index below, at and beyond either end of the vertex range, also with every optional mesh check skipped. None entries, complex arrays, empty paths and rotations of length 0.",
     "C18": "copy() that raises (rejected keyword after the deep copy, content that cannot be deep-copied) must leave the original, its parent link and its parent untouched; model3d traces with array-valued args / kwargs. Differential oracle: copy(**kw) equals copy() followed by the assignments in keyword order (public state incl. children, field); orientation=None, both pose keywords in either order, pose paths. A rejected copy that was asked into another collection must leave that collection as it was; objects with an empty label.",
-    "C19": "matplotlib backend (artists of the returned figure mapped back onto the shapes); user supplied extra models (generic / plotly kwargs / plotly callable / matplotlib args x trace scale x paths x units, shown twice, definition unchanged). Animation frames are checked against the path index they announce (also for downsampled paths longer than the allowed frames); paths that turn on the spot; a left-handed Tetrahedron; show() calls that fail (malformed / raising user trace at every argument position, bad backend, bad style keyword, bad canvas) must leave objects, style object identity and defaults untouched. Objects 3 and 4 collections deep; units Mm, um and 'auto' at scene sizes 1e6 / 1 / 1e-6 m; the same objects in 2-3 subplots of one call: every scene equals a single show() trace by trace. Dipoles with axis-aligned moments (arrow sense); a mesh of 8 bodies drawn body by body; a mesh built with all checks skipped keeps its unchecked status.",
-    "C20": "Collection.set_children_styles in 5 notations; caller dictionaries are read, never written (10 notations); styles transferred through as_dict() or a shared trace list stay independent. Unobserved cross-leaf histories (two writes to different leaves with no read of obj.style in between; nested dict and underscore keyword mixed in one call) are observed once at the end; styles resolved in one show() pass over several objects of different families must equal the style each object resolves to alone; Triangle and TriangularMesh are modelled with their two families. Style nodes of another object given as values (assignment, constructor keyword, update, copy keyword) must not be shared; a style dictionary edited by the caller after construction and before the first look at the style must not reach the object. The stored value of a colour leaf depends on the assigned value only (fresh-interpreter oracle, 32 values); 19 malformed and 15 documented colour values through 11 routes; a whole style object assigned.",
+    "C19": "matplotlib backend (artists of the returned figure mapped back onto the shapes); user supplied extra models (generic / plotly kwargs / plotly callable / matplotlib args x trace scale x paths x units, shown twice, definition unchanged). Animation frames are checked against the path index they announce (also for downsampled paths longer than the allowed frames); paths that turn on the spot; a left-handed Tetrahedron; show() calls that fail (malformed / raising user trace at every argument position, bad backend, bad style keyword, bad canvas) must leave objects, style object identity and defaults untouched. Objects 3 and 4 collections deep; units Mm, um and 'auto' at scene sizes 1e6 / 1 / 1e-6 m; the same objects in 2-3 subplots of one call: every scene equals a single show() trace by trace. Dipoles with axis-aligned moments (arrow sense); a mesh of 8 bodies drawn body by body; a mesh built with all checks skipped keeps its unchecked status. Paths whose rotations share the angle but not the axis; a Triangle with normal polarization (drawn as a thin prism) in all units.",
+    "C20": "Collection.set_children_styles in 5 notations; caller dictionaries are read, never written (10 notations); styles transferred through as_dict() or a shared trace list stay independent. Unobserved cross-leaf histories (two writes to different leaves with no read of obj.style in between; nested dict and underscore keyword mixed in one call) are observed once at the end; styles resolved in one show() pass over several objects of different families must equal the style each object resolves to alone; Triangle and TriangularMesh are modelled with their two families. Style nodes of another object given as values (assignment, constructor keyword, update, copy keyword) must not be shared; a style dictionary edited by the caller after construction and before the first look at the style must not reach the object. The stored value of a colour leaf depends on the assigned value only (fresh-interpreter oracle, 32 values); 19 malformed and 15 documented colour values through 11 routes; a whole style object assigned. Caller dictionaries mixing nested and underscore notation for one node.",
 }
 for _k, _v in ADD.items():
     CHECKS[_k]["text"] += " " + _v
